@@ -55,7 +55,7 @@ def gen_num(rng):
     return {"k": "num", "text": lit_text(rng, small_value(rng))}
 
 
-STR_PIECES = [[97], [98, 99], [65], [32], [48], [92, 110], [92, 116], [92, 48], [92, 92], [92, 39],
+STR_PIECES = [[97], [98, 99], [65], [32], [48], [92, 110], [92, 116], [92, 48], [92, 92], [92, 39], [92, 34], [92, 114], [92, 34, 97],
               [92, 120, 52, 49], [92, 120, 55, 102], [92, 117, 123, 52, 49, 125], [92, 117, 123, 101, 57, 125],
               [92, 117, 123, 50, 48, 97, 99, 125], [92, 117, 123, 49, 102, 54, 48, 48, 125],
               [233], [8364], [128512], [26085], [223]]
